@@ -797,6 +797,12 @@ def _eng_oracle(c, impl):
     if not impl.get("ok"):
         return "engine harness: " + str(impl.get("err"))
     f = _eng_failures(c, impl)
+    if f and c.get("pinned"):
+        # histories with a pinned list of known failing inputs: a failure that is not on the list is named first
+        listed = {(r, j): k for r, j, k in c.get("pinned_fail", [])}
+        f = sorted(f, key=lambda x: listed.get((x[0], x[1])) == x[3])
+        if listed.get((f[0][0], f[0][1])) != f[0][3]:
+            return f[0][2] + " (a pinned history: this query/answer is not among the failures listed for it under OrderedLimitWrongSlice)"
     return f[0][2] if f else None
 
 
@@ -812,6 +818,11 @@ def classify(c, impl):
         if not f:
             return None
         flushed = {j: keys for (run, j, w, keys) in f if run == 2}
+        if c.get("pinned"):
+            # corpus/C10/rlte_pinned.json: deterministic layouts; the known finding is identified on them by the exact
+            # (run, query, answer) triples that fail on the unchanged tree - anything else is a different violation
+            listed = {(r, j): k for r, j, k in c.get("pinned_fail", [])}
+            return "OrderedLimitWrongSlice" if all(listed.get((run, j)) == keys for (run, j, w, keys) in f) else None
         plans = _eng_plans(c, impl)
         if plans:
             # The known finding is the unsound ORDER BY zone pre-selection (RLTE planner: it estimates from the ladders
